@@ -1542,6 +1542,8 @@ fn main() {
         }
     }
     let table = Table { keys: selected.iter().map(|f| f.key.clone()).collect() };
+    let all_table = Table { keys: c.fns.iter().filter(|f| !f.in_trait_decl).map(|f| f.key.clone()).collect() };
+    let mut unselected: BTreeMap<String, BTreeSet<String>> = BTreeMap::new();
     let aliases: BTreeMap<String, String> =
         job["aliases"].as_object().map(|m| m.iter().map(|(k, v)| (k.clone(), v.as_str().unwrap().to_string())).collect()).unwrap_or_default();
     let rename_calls: BTreeMap<String, String> = job["rename_calls"]
@@ -1600,6 +1602,23 @@ fn main() {
             prim.insert(f.key.clone());
         }
         calls.insert(f.key.clone(), ef.callees);
+        // calls that resolve to a function of the given files which was NOT selected (e.g. a helper added by an edit)
+        {
+            let mut ef2 = Effects {
+                envs,
+                table: &all_table,
+                cur_impl: &f.impl_type,
+                aliases: &aliases,
+                clients: BTreeSet::new(),
+                primitive: false,
+                callees: BTreeSet::new(),
+                unknown_env_calls: BTreeSet::new(),
+                extern_effectful: &extern_effectful,
+            };
+            ef2.visit_block(&f.block);
+            let uns: BTreeSet<String> = ef2.callees.into_iter().filter(|k| !table.keys.contains(k)).collect();
+            unselected.insert(f.key.clone(), uns);
+        }
         let unk: BTreeSet<String> = ef.unknown_env_calls.into_iter().filter(|n| !extern_pure.contains(n)).collect();
         if !unk.is_empty() {
             unknown.insert(f.key.clone(), unk);
@@ -1709,7 +1728,7 @@ fn main() {
             "params": params, "ret": ret, "effectful": eff, "env_params": envs.iter().collect::<Vec<_>>(),
             "body": body, "n_loops": rw.loops, "n_closures": rw.diverge,
             "src_sha": sha(&f.src_text), "out_sha": sha(&body), "rule_sites": rw.sites,
-            "callees": calls[&f.key], "unknown_env_calls": unknown.get(&f.key),
+            "callees": calls[&f.key], "unknown_env_calls": unknown.get(&f.key), "unselected_callees": unselected.get(&f.key),
         }));
     }
     let _ = quote!();
